@@ -10,6 +10,9 @@ KS_NOTE = ("Trusted: TLC, the transcription of the Redis command reference in sp
            "(memdb/verif_inspect.go). B1 is exhaustive only within the instance bounds; B2 is sampled.")
 
 CHECKS = {
+    "C07": dict(cat="model_checking", ref="§C07", technique="TLA+ model of the cluster layer above the agreed log (ClusterLin.tla: ReplicaAgreement, AckedExactlyOnce, OwnReply, RealTime checked by TLC); histories of concurrent TCP clients on real multi-process clusters under kill/restart/pause schedules checked for linearizability by TLC (TraceLin.tla) with per-node read-back",
+                text="Real 3-node (thorough: also 5-node) clusters of the real binary are driven by concurrent clients on all nodes while nodes are killed, restarted and paused; the complete invocation/response history, ending with a read-back of every key through every node's own port, must be linearizable against the keyspace spec (unanswered commands may or may not take effect), and no node may die by itself. Replica agreement for commands depending on local randomness or clock is probed separately (recorded findings).",
+                note="Trusted: TLC, TraceLin/Keyspace specs, process-level fault injection on one host (no network shim). Consensus itself is C15's subject. Inconclusive scenarios (cluster not ready) are skipped and counted."),
     "C14": dict(cat="model_checking", ref="§C14", technique="TLA+ codec model (Codec.tla: faithful codec = identity, old space-joined codec corrupts the expected classes) with every enumerated argument vector pushed through the real cluster path; the keyspace transition tables and random programmes replayed through the real cluster handler + proposal JSON + apply loop (in process) and through real 1- and 3-node clusters, validated by TraceKs.tla with read-back on every replica",
                 text="Every argument vector of up to 2 (quick) / 3 (thorough) arguments over {a, A, space, CR, LF, 0xFF} (incl. empty arguments) must come back byte for byte through HandleCluster -> RaftProposal JSON -> apply loop -> executor; every branch label of every family's bounded model and random programmes with binary arguments are run through the same path and through real clusters, and must satisfy the same reference keyspace as the standalone server, on every replica.",
                 note="Trusted: TLC, the Keyspace spec, the verif hook server/verif_cluster.go (replaces only the Raft transport). Real clusters are sampled (a few programmes per family and a sample of codec vectors) because every command costs a Raft round trip."),
